@@ -10,6 +10,7 @@ import (
 	"context"
 	"fmt"
 	"net"
+	"runtime"
 	"sort"
 	"strconv"
 	"strings"
@@ -78,8 +79,8 @@ func (w *waiter) OnReceive(ctx context.Context, headers api.HeaderMap, data buff
 	w.got = append(w.got, fid+"/"+tok)
 }
 func (w *waiter) OnDecodeError(ctx context.Context, err error, headers api.HeaderMap) {}
-func (w *waiter) OnResetStream(reason types.StreamResetReason)                       { w.resets++ }
-func (w *waiter) OnDestroyStream()                                                   {}
+func (w *waiter) OnResetStream(reason types.StreamResetReason)                        { w.resets++ }
+func (w *waiter) OnDestroyStream()                                                    {}
 
 type goAway struct{}
 
@@ -306,6 +307,16 @@ func Run(c *hx.Ctx) {
 		h2wCases(c)
 		return
 	}
+	if len(c.Args) >= 1 && c.Args[0] == "sgen" { // only the stream-object generation kind (2 args: one given schedule)
+		if len(c.Args) == 2 {
+			old := runtime.GOMAXPROCS(1)
+			sgRun(c, sgParse(c.Args[1]))
+			runtime.GOMAXPROCS(old)
+			return
+		}
+		sgCases(c)
+		return
+	}
 	if len(c.Args) >= 1 && c.Args[0] == "e2e" { // only the end-to-end kind (4 args: one given plan)
 		runE2E(c, hx.NewRng(c.Seed^0xe2e0e2e))
 		return
@@ -397,4 +408,6 @@ func Run(c *hx.Ctx) {
 	h1bCases(c)
 	// 6. HTTP/2 header blocks of concurrent writers on one connection, decoded in wire order (h2w.go)
 	h2wCases(c)
+	// 7. stream objects living in pooled buffers: destroy / deliver order of the receiver wrapper against the real HTTP/1 pool (sgen.go)
+	sgCases(c)
 }
